@@ -124,6 +124,12 @@ def check_C20(tier, seed):
         model = common.run_model("hostile", [h_line(s, c, ftext) for s, c in cases])
         sub = list(range(0, len(lines), 1 if thorough else 3))
         impl_dbg = common.run_harness("hostile", [lines[i] for i in sub], debug=True, shards=common.NCPU)
+        # queued() under every sub-step placement of its two loads (hook H2 schedules of the queue check, <= 6 events):
+        # the subtraction behind the guard must not be reachable with drained > submitted
+        from . import queue as queue_driver
+        sched = queue_driver.gen_schedules(6, [1, None], rng, 0, 0)
+        simpl = common.run_harness("queue", sched, shards=common.NCPU)
+        simpl_dbg = common.run_harness("queue", sched, debug=True, shards=common.NCPU)
         oimpl = common.run_harness("hostile", others, shards=min(8, common.NCPU))
         oimpl_dbg = common.run_harness("hostile", others, debug=True, shards=min(8, common.NCPU))
         omodel = common.run_model("hostile", others)
@@ -176,11 +182,16 @@ def check_C20(tier, seed):
                 failures.append((len(c), c, x, "a call panicked (%s profile): %s" % (prof, x[:200])))
             elif x != m:
                 dis.append((len(c), c, x, m))
+    for c, o, od in zip(sched, simpl, simpl_dbg):
+        for prof, x in (("release", o), ("debug", od)):
+            if x.startswith("HARNESS-PANIC"):
+                failures.append((len(c), c, x, "a library call panicked under the sub-step schedule (%s profile): %s" % (prof, x[:200])))
+    dist["queued_schedules"] = len(sched)
     if failures:
         failures.sort()
         _, line, o, msg = failures[0]
         rep.violation_input("%s (%d failing cases; smallest shown)" % (msg[:300], len(failures)),
-                            {"bin": "hostile", "case": line[:20000], "implementation": o[:3000], "clause": msg,
+                            {"bin": "queue" if line.startswith("QH") else "hostile", "case": line[:20000], "implementation": o[:3000], "clause": msg,
                              "how": "build/target/{release,debug}/harness hostile <file with the case line>"})
     if dis and not failures:
         dis.sort()
